@@ -278,4 +278,42 @@ example :
     (replay [g, b1]).m.cells ⟨6, 0⟩ ≠ none := by
   decide
 
+open Example in
+/-- the well-formedness hypotheses are satisfiable: `g, b1` (a spend of a genesis cell and an
+in-block create-and-spend) is a well-formed chain … -/
+example : WellFormed g [b1] := by
+  have cells_init : ∀ o : OutPoint, (init g).m.cells o =
+      if o = ⟨0, 0⟩ then some (mkRow 0 0 ⟨0, 0, 0⟩ 0 ⟨8, 0⟩) else none := by
+    intro o
+    simp [init, attachOne, attachOneM, attachCell, attach, blockCells, outCells, insertCells, deleteCells,
+      deadInputs, upd, g, Main.empty, View.empty]
+  refine ⟨⟨by decide, ?_, ?_, rfl, rfl, ?_, ?_, Or.inl rfl⟩,
+    ValidChain.cons ⟨by decide, ?_, ?_, by decide, by decide, ?_, ?_, Or.inl (by decide)⟩ (ValidChain.nil _)⟩
+  · intro t _; rfl
+  · intro o _; rfl
+  · intro u hu; simp [g] at hu
+  · intro o ho; simp [deadInputs, g] at ho
+  · intro t ht
+    simp [txIds, b1, Witness.cb, t5, t6] at ht
+    rcases ht with rfl | rfl | rfl <;> decide
+  · intro o ho
+    simp [txIds, b1, Witness.cb, t5, t6] at ho
+    rw [cells_init]
+    have : o ≠ ⟨0, 0⟩ := by
+      intro h; subst h; simp at ho
+    simp [this]
+  · intro u hu; simp [b1] at hu
+  · intro o ho
+    simp [deadInputs, b1, Witness.cb, t5, t6] at ho
+    rcases ho with rfl | rfl
+    · left; rw [cells_init]; simp
+    · right; decide
+
+open Example in
+/-- … and `reorg_eq_replay` applies to it: the reorg from `g,b1` to the sibling `g,b2` is the replay
+of `g,b2` (whole view, as functions) -/
+example (hwf : WellFormed g [b1]) :
+    (commitBest ⟨(replay [g, b1]).m, (replay [g, b1]).r⟩ b2 [b1] [b2]).m = (replay [g, b2]).m :=
+  reorg_eq_replay g [] [b1] [b2] b2 _ hwf rfl (fun _ _ h => h) (Or.inr (Or.inl (by simp)))
+
 end CkbVerif.C02
